@@ -169,6 +169,44 @@ def run(ctx):
             pvlib.report_violation(ctx, "shard-stream:" + o_, {"ops": [o_], "problem": prob, "file_bytes": len(raw)},
                                    summary=f"the {comp_} stream a shard file is written through, {xs[2]} pseudo-random bytes in writes of 1..4096 bytes ({o_}): the file {prob}")
             break
+    # bzip2, end of stream with a completely FULL staging buffer: an input crafted (tools/craft_bz2.py, parameters in
+    # corpus/bz2_full_staging.json, re-checked here against this machine's libbz2) so that libbz2 has emitted an exact multiple of
+    # 4096 bytes when its first 900k block completes, inside the last 8192-byte piece the writer thread hands over
+    import json as _json, craft_bz2
+    try:
+        cp = _json.load(open(os.path.join(pvlib.VERIF, "corpus", "bz2_full_staging.json")))
+        ok_ = craft_bz2.qualifies(cp["seed"], cp["total"])
+    except Exception as e:
+        cp, ok_ = None, False
+        ctx.notes.append({"bz2_full_staging": repr(e)})
+    if not ok_ and ctx.tier != "quick":
+        r_ = craft_bz2.search()
+        if r_:
+            cp, ok_ = {"seed": r_[0], "total": r_[1]}, True
+    ctx.cov["bz2_full_staging_input"] = "used" if ok_ else "not available with this libbz2 (quick tier does not search)"
+    if ok_:
+        data = craft_bz2.data(cp["seed"], cp["total"])
+        for label, n_, spec_ in (("one explicit output file", 1, None), ("one output file, key = field 2", 1, "2")):
+            argv, names, st, err = run_shard(ctx, n_, "names", spec_, "\t", "bzip2", data, None)
+            ctx.count("shard.bz2-full-staging", 1, [(label,)])
+            prob = None
+            outs = []
+            if st != 0:
+                prob = f"status {st}"
+            else:
+                for nm in names:
+                    try:
+                        outs.append(bz2.decompress(open(nm, "rb").read()))
+                    except Exception as e:
+                        prob = f"{os.path.basename(nm)} is not a valid bzip2 stream ({e!r})"
+                        break
+                if not prob and sorted(b"".join(outs).split(b"\n")) != sorted(data.split(b"\n")):
+                    prob = "the files do not hold exactly the input lines"
+            if prob:
+                pvlib.report_violation(ctx, "shard-bz2-full-staging:" + label, {"argv": argv, "generator": f"tools/craft_bz2.py data(seed={cp['seed']}, total={cp['total']})", "status": st,
+                                       "stderr": (err or b"").decode(errors="replace")[-300:] if isinstance(err, (bytes, bytearray)) else str(err)[-300:]},
+                                       summary=f"shard -c bzip2 ({label}) on {cp['total']} bytes for which libbz2 has emitted {craft_bz2.emitted(data)} = k*4096 bytes when the input ends: {prob}")
+                break
     # purity: the file of a key does not depend on neighbours / position
     base = [b"k%d" % i for i in range(30)]
     where = {}
